@@ -71,6 +71,10 @@ type c14Obs struct {
 	InstallKnown    bool     `json:"installKnown,omitempty"`
 	InstallRejected bool     `json:"installRejected,omitempty"`
 	InstallNames    []string `json:"installNames,omitempty"`
+	// lint only: the real library's verdict on the input the values.yaml rule is documented to
+	// check - the top chart's schema on CoalesceTables(supplied values, values.yaml), no subcharts
+	DocInputKnown bool `json:"docInputKnown,omitempty"`
+	DocInputValid bool `json:"docInputValid,omitempty"`
 
 	chartTerm string
 	compat    string
@@ -252,6 +256,11 @@ func (*c14) Execute(ci any) (res any) {
 	obs.reference(c)
 	if c.Op == "lint" || c.Op == "cmd-lint" {
 		obs.InstallRejected, obs.InstallNames, obs.InstallKnown = c14InstallVerdict(c)
+		if c.Chart.Schema != nil {
+			in := chartutil.CoalesceTables(deepCopyVals(c.Vals), deepCopyVals(c.Chart.Values))
+			obs.DocInputKnown = true
+			obs.DocInputValid = chartutil.ValidateAgainstSingleSchema(in, c.Chart.Schema.bytes()) == nil
+		}
 	}
 	if strings.HasPrefix(c.Op, "cmd-") {
 		obs.runCmd(c)
@@ -410,8 +419,16 @@ func (*c14) Oracle(ci, oi any) []hx.Violation {
 			}
 		}
 		if obs.LintVals && !obs.InstallRejected {
-			vs = append(vs, hx.Violation{Sig: "C14:lint-values-rule-rejects-what-install-accepts",
-				What: "lint's values.yaml rule reports a schema error although install accepts the same chart and values"})
+			if len(c.Chart.Charts) > 0 && obs.DocInputKnown && !obs.DocInputValid {
+				// the rule did what it is documented to do (top schema on values.yaml + supplied
+				// values, WITHOUT the subcharts' defaults, sections and globals that the final values
+				// hold): known finding K-C14-1, a false reject of lint by design
+				vs = append(vs, hx.Violation{Sig: "C14:lint-values-rule-ignores-subchart-values",
+					What: "lint's values.yaml rule rejects the chart because it validates values.yaml + supplied values without the subcharts' contribution; the final values, which install validates, satisfy the schema"})
+			} else {
+				vs = append(vs, hx.Violation{Sig: "C14:lint-values-rule-rejects-what-install-accepts",
+					What: "lint's values.yaml rule reports a schema error although install accepts the same chart and values"})
+			}
 		}
 		if len(c.Chart.Charts) == 0 && topRejected && !obs.LintVals {
 			vs = append(vs, hx.Violation{Sig: "C14:lint-values-rule-accepts-what-install-rejects",
@@ -547,6 +564,14 @@ func (*c14) Corpus() []any {
 		out = append(out, c14Case{Kind: "corpus", Op: op, Chart: nestedTable(), Vals: tbl("db", tbl("user", "x"))})
 		out = append(out, c14Case{Kind: "corpus", Op: op, Chart: nestedTable(), Vals: tbl("db", tbl("user", "x", "password", nil))})
 	}
+	// known finding K-C14-1: the values.yaml rule of lint checks the top chart's schema WITHOUT the
+	// subcharts' defaults; the parent's schema requires a key that only the subchart's defaults give
+	out = append(out, c14Case{Kind: "corpus", Op: "lint",
+		Chart: &vChart{Name: "top", Version: "1.0.0", Values: tbl("suba", tbl("enabled", true)),
+			Schema: &vSchema{Type: "object", Props: map[string]*vSchema{"suba": {Type: "object", Required: []string{"x"}}}},
+			Charts: []*vChart{{Name: "suba", Version: "1.0.0", Values: tbl("x", 1.0)}},
+			Deps:   []vDep{{Name: "suba", Version: "1.0.0"}}},
+		Vals: tbl()})
 	// CRD caveat: crds/ are installed before the values are validated
 	out = append(out, c14Case{Kind: "corpus", Op: "install", Chart: mk(true), Vals: tbl("replicas", -1.0, "subb", tbl("enabled", false))})
 	out = append(out, c14Case{Kind: "corpus", Op: "install", SkipCRDs: true, Chart: mk(true), Vals: tbl("replicas", -1.0, "subb", tbl("enabled", false))})
